@@ -304,11 +304,25 @@ where
                     | AccountEvent::UpdateFolder(id, buf)
                     | AccountEvent::CompactFolder(id, buf)
                     | AccountEvent::ChangeFolderPassword(id, buf) => {
+                        // When the account log was rewound and is replayed
+                        // the patch holds the create event of a folder this
+                        // device made itself: the folder exists already and
+                        // must not be reset to the vault it was created with
+                        // (that would discard everything added to it since).
+                        let exists = matches!(
+                            &event,
+                            AccountEvent::CreateFolder(..)
+                        ) && self.0.find(|f| f.id() == id).is_some();
+
                         // If the folder was created and later deleted
                         // in the same sequence of events then the folder
                         // password won't exist after merging the identity
                         // events so we need to skip the operation.
-                        if let Ok(Some(key)) = self
+                        if exists {
+                            tracing::debug!(
+                                folder_id = %id,
+                                "merge_account::create_folder::exists");
+                        } else if let Ok(Some(key)) = self
                             .0
                             .authenticated_user()
                             .ok_or(AuthenticationError::NotAuthenticated)?
